@@ -224,6 +224,7 @@ func exitReportsError(p *Prog, b *ssa.BasicBlock) bool {
 		return false
 	}
 	for _, r := range ret.Results {
+		r = unspillResult(ret, r)
 		if call, ok := r.(*ssa.Call); ok {
 			if o := calleeObj(call); o != nil && p.isErrSetter(o) {
 				return true
